@@ -9,7 +9,7 @@ from props import tables
 RULE = ("method='bruteforce' with recording table utilities: an independent value (dyadic or sevenths) or a raised ValueError/RuntimeWarning/UserWarning "
         "(and, in a separate stream, an uncaught exception class) for EVERY row subset reachable by some coalition, over random DNF provenances (value-0 "
         "literals included), 1-6 units quick / 1-9 thorough; compared: score vector vs the Lean model Ds.Brute.scores and vs the textbook Shapley sum in "
-        "Fractions, and the multiset of row subsets the utility was called with vs the rows whose formula is true. Non-trivial = >= 2 units, >= 3 distinct "
+        "Fractions, and the set of row subsets the utility was called with vs the row sets whose formulas are true under the coalitions. Non-trivial = >= 2 units, >= 3 distinct "
         "coalition values and at least one failing coalition or value-0 literal; distinct = distinct (provenance, table).")
 
 
@@ -57,10 +57,11 @@ def run(ctx):
             continue
         scale = 16
         # rows the utility was called with
-        want_calls = sorted(sorted(tables.rows_present(exprs, a)) for a in spec.assignments(n_units))
-        got_calls = sorted(sorted(c) for c in util.calls)
+        # (as sets: an implementation that caches repeated row sets or evaluates a coalition twice still satisfies the property)
+        want_calls = sorted({tuple(sorted(tables.rows_present(exprs, a))) for a in spec.assignments(n_units)})
+        got_calls = sorted({tuple(sorted(c)) for c in util.calls})
         if got_calls != want_calls:
-            ctx.mismatch("utility was not evaluated on exactly the rows whose formula is true, once per coalition", case, impl=got_calls[:20], spec=want_calls[:20])
+            ctx.mismatch("utility was not evaluated on exactly the row sets whose formulas are true under the coalitions", case, impl=got_calls[:20], spec=want_calls[:20])
         elif not ctx.vec_close(res, want, scale):
             ctx.mismatch("bruteforce scores differ from the Shapley value by definition", case, impl=res, model=ans, spec=[str(x) for x in want])
         elif ans is not None and ("err" in ans or [Fraction(x) for x in ans["ok"]] != want):
